@@ -24,6 +24,7 @@ def run(ctx):
     n = D.rule_keyed_access(res, "C18-R2", m)
     D.rule_key_equality(res, "C18-R3", m)
     D.rule_early_returns(res, "C18-R5", m)
+    D.rule_entry_classification(res, "C18-R5", m, parts=("cm-path",))  # a zero-leading (TECMP or cut-short TECMP) buffer never reaches the table
     k = D.rule_output_sources(res, "C18-R6", m)
     res.floor("C18-R2", 5)
     res.floor("C18-R6", 2, k)
